@@ -109,6 +109,10 @@ impl Ev {
     }
 }
 
+/// Pseudo errno: the chosen write-family call transfers only the first half of its bytes and
+/// returns that count (legal for write(2); not an error).
+pub const SHORT_WRITE: i32 = -2;
+
 #[derive(Clone, Copy, Debug, PartialEq, Eq)]
 pub struct Fault {
     /// Index among *mutating* calls (0-based) of the call that fails.
@@ -213,6 +217,12 @@ impl Ctx {
         self.mutations += 1;
         if let Some(f) = self.fault {
             if f.at == idx {
+                let is_write = what.starts_with("write") || what.starts_with("pwrite");
+                let is_sync = what.starts_with("fsync") || what.starts_with("fdatasync");
+                if (f.errno == SHORT_WRITE && !is_write) || (f.errno == libc::EINTR && !(is_write || is_sync)) {
+                    // these two only happen to data transfers (and EINTR to syncs)
+                    return None;
+                }
                 let errno = if f.errno == libc::ENOSPC && !write_family {
                     libc::EIO
                 } else {
@@ -404,9 +414,14 @@ pub unsafe extern "C" fn write(fd: c_int, buf: *const c_void, count: size_t) -> 
         Some(h) => h,
         None => return libc::syscall(libc::SYS_write, fd, buf, count) as ssize_t,
     };
+    let mut count = count;
     if let Some(Some(errno)) = with_ctx(|ctx| ctx.pre_mutation(&format!("write h{h}"), true)) {
-        set_errno(errno);
-        return -1;
+        if errno == SHORT_WRITE {
+            count = (count / 2).max(1).min(count);
+        } else {
+            set_errno(errno);
+            return -1;
+        }
     }
     let n = libc::syscall(libc::SYS_write, fd, buf, count) as ssize_t;
     if n > 0 {
@@ -424,11 +439,29 @@ pub unsafe extern "C" fn writev(fd: c_int, iov: *const libc::iovec, iovcnt: c_in
         Some(h) => h,
         None => return libc::syscall(libc::SYS_writev, fd, iov, iovcnt) as ssize_t,
     };
+    let mut short = false;
     if let Some(Some(errno)) = with_ctx(|ctx| ctx.pre_mutation(&format!("writev h{h}"), true)) {
-        set_errno(errno);
-        return -1;
+        if errno == SHORT_WRITE {
+            short = true;
+        } else {
+            set_errno(errno);
+            return -1;
+        }
     }
-    let n = libc::syscall(libc::SYS_writev, fd, iov, iovcnt) as ssize_t;
+    let n = if short && iovcnt > 0 {
+        // only the first half of the first non-empty buffer is transferred
+        let mut first = *iov;
+        for i in 0..iovcnt as usize {
+            first = *iov.add(i);
+            if first.iov_len > 0 {
+                break;
+            }
+        }
+        first.iov_len = (first.iov_len / 2).max(1).min(first.iov_len);
+        libc::syscall(libc::SYS_writev, fd, &first as *const libc::iovec, 1) as ssize_t
+    } else {
+        libc::syscall(libc::SYS_writev, fd, iov, iovcnt) as ssize_t
+    };
     if n > 0 {
         let pos = libc::syscall(libc::SYS_lseek, fd, 0 as off_t, libc::SEEK_CUR) as i64;
         let off = (pos - n as i64).max(0) as u64;
@@ -453,9 +486,14 @@ unsafe fn do_pwrite(fd: c_int, buf: *const c_void, count: size_t, offset: off_t)
         Some(h) => h,
         None => return libc::syscall(libc::SYS_pwrite64, fd, buf, count, offset) as ssize_t,
     };
+    let mut count = count;
     if let Some(Some(errno)) = with_ctx(|ctx| ctx.pre_mutation(&format!("pwrite h{h}"), true)) {
-        set_errno(errno);
-        return -1;
+        if errno == SHORT_WRITE {
+            count = (count / 2).max(1).min(count);
+        } else {
+            set_errno(errno);
+            return -1;
+        }
     }
     let n = libc::syscall(libc::SYS_pwrite64, fd, buf, count, offset) as ssize_t;
     if n > 0 {
